@@ -1,13 +1,13 @@
 package mon
 
 import (
-	"sort"
 	"encoding/json"
 	"fmt"
 	"math"
 	"math/big"
 	"math/rand"
 	"reflect"
+	"sort"
 	"strconv"
 	"strings"
 
@@ -453,7 +453,9 @@ func tvInputs(t leafTarget, rng *rand.Rand, nrand int) []tvInput {
 	uv := func(n uint64) *gpb.TypedValue { return &gpb.TypedValue{Value: &gpb.TypedValue_UintVal{UintVal: n}} }
 	sv := func(s string) *gpb.TypedValue { return &gpb.TypedValue{Value: &gpb.TypedValue_StringVal{StringVal: s}} }
 	bv := func(b bool) *gpb.TypedValue { return &gpb.TypedValue{Value: &gpb.TypedValue_BoolVal{BoolVal: b}} }
-	dv := func(f float64) *gpb.TypedValue { return &gpb.TypedValue{Value: &gpb.TypedValue_DoubleVal{DoubleVal: f}} }
+	dv := func(f float64) *gpb.TypedValue {
+		return &gpb.TypedValue{Value: &gpb.TypedValue_DoubleVal{DoubleVal: f}}
+	}
 	fv := func(f float32) *gpb.TypedValue { return &gpb.TypedValue{Value: &gpb.TypedValue_FloatVal{FloatVal: f}} }
 	byv := func(b []byte) *gpb.TypedValue { return &gpb.TypedValue{Value: &gpb.TypedValue_BytesVal{BytesVal: b}} }
 	ll := &gpb.TypedValue{Value: &gpb.TypedValue_LeaflistVal{LeaflistVal: &gpb.ScalarArray{Element: []*gpb.TypedValue{iv(1)}}}}
